@@ -26,7 +26,7 @@ RULE = (
     "a fresh child is forked, performs the save on the real directory and dies with os._exit just before operation k; for raw writes it also "
     "dies after pushing 1, half and all-but-one of the bytes. The parent loads the file the crash left behind into an empty registry. "
     "Oracle: the result is the old registry or the new registry (deep equality) - never a read error, never anything else; a completed "
-    "save loads as the new registry. evaluations counts forked crash runs. Non-trivial = a crash strictly inside a save with old != new "
+    "save loads as the new registry. For a third of the pairs every state a first crash left behind is the start of a SECOND save that is killed at every operation again (crash, restart, load, save, crash). evaluations counts forked crash runs. Non-trivial = a crash strictly inside a save with old != new "
     "and old not empty; distinct = distinct (old, new) pair."
 )
 ASSUMPTIONS = [
@@ -57,6 +57,7 @@ def strategy(tier: str):
             "old": st.one_of(st.none(), registry, registry, registry),
             "new": registry,
             "same": st.sampled_from((False, False, False, False, True)),
+            "second": st.sampled_from((False, False, True)),
         }
     )
 
@@ -94,7 +95,8 @@ def _install(ctl: _Control) -> None:
 
     class CrashFileIO(io.FileIO):
         def __init__(self, name, mode) -> None:
-            ctl.tick("open", mode=mode, path=os.path.basename(str(name)))
+            full = os.path.abspath(str(name))
+            ctl.tick("open", mode=mode, path=os.path.basename(full) if full.startswith(ctl.scratch) else full)
             super().__init__(name, mode)
 
         def write(self, data) -> int:
@@ -114,9 +116,12 @@ def _install(ctl: _Control) -> None:
             super().close()
 
     def crash_open(file, mode="r", buffering=-1, encoding=None, errors=None, newline=None, closefd=True, opener=None):
-        inside = isinstance(file, (str, os.PathLike)) and os.path.abspath(os.fspath(file)).startswith(ctl.scratch)
-        if not inside or not any(ch in mode for ch in "wax+"):
+        is_path = isinstance(file, (str, os.PathLike))
+        full = os.path.abspath(os.fspath(file)) if is_path else ""
+        if not is_path or not any(ch in mode for ch in "wax+") or full in ("/dev/null", "/dev/zero", "/dev/tty") or full.startswith(("/proc/", "/sys/", "/dev/pts", "/dev/fd")):
             return real_open(file, mode, buffering, encoding, errors, newline, closefd, opener)
+        if opener is not None:
+            return real_open(file, mode, buffering, encoding, errors, newline, closefd, opener)  # custom openers are not modelled
         raw_mode = mode.replace("b", "").replace("t", "")
         raw = CrashFileIO(file, raw_mode)
         buffered = io.BufferedWriter(raw) if "+" not in raw_mode else io.BufferedRandom(raw)
@@ -147,7 +152,7 @@ def _install(ctl: _Control) -> None:
         except Exception:  # noqa: BLE001
             pass
 
-    for name in ("replace", "rename", "unlink", "remove", "link", "fsync", "fdatasync", "truncate", "ftruncate"):
+    for name in ("replace", "rename", "unlink", "remove", "link", "symlink", "fsync", "fdatasync", "truncate", "ftruncate", "sendfile", "copy_file_range", "splice", "rmdir", "mkdir"):
         wrap_os(name)
 
 
@@ -200,13 +205,109 @@ def _reset(scratch: str, path: str, old_bytes: bytes | None) -> None:
             fil.write(old_bytes)
 
 
+def _dir_state(scratch: str) -> dict:
+    state = {}
+    for name in sorted(os.listdir(scratch)):
+        full = os.path.join(scratch, name)
+        if os.path.isfile(full):
+            with open(full, "rb") as fil:
+                state[name] = fil.read()
+    return state
+
+
+def _restore(scratch: str, state: dict) -> None:
+    for name in os.listdir(scratch):
+        full = os.path.join(scratch, name)
+        if os.path.isdir(full):
+            shutil.rmtree(full, ignore_errors=True)
+        else:
+            os.unlink(full)
+    for name, data in state.items():
+        with open(os.path.join(scratch, name), "wb") as fil:
+            fil.write(data)
+
+
+def _sweep(scratch: str, path: str, start: dict, saving: dict, allowed: list, new_bytes: bytes, known: dict, only=None, label: str = ""):
+    """Kill a save of `saving` at every file operation, starting from directory state `start`.
+
+    Returns (unknown failure or None, first known failure or None, forks, ops, survivors) where survivors are the
+    (directory state after crash AND load, registry that load returned) pairs of the crash points that passed.
+    """
+    live = os.path.basename(path)
+    _restore(scratch, start)
+    code, ops = _fork(scratch, path, saving, -1, None, True)
+    forks = 1
+    if code != 0:
+        raise RuntimeError(f"dry run of save failed in the child (exit {code})")
+    if not any(op["kind"] in ("open", "write") for op in ops):
+        # the save went through an interface this harness does not intercept: say so instead of passing vacuously
+        raise RuntimeError(f"save performed no intercepted file operation (ops: {ops!r}); C15's crash model needs extending")
+    status, loaded = env.run(c13._load(path))
+    if status != "ok" or loaded != allowed[-1]:
+        return fail(f"completed-save-does-not-load-as-new{label}", f"after a complete save the file loads as {status} {str(loaded)[:200]!r}", nontrivial=True), None, forks, ops, []
+    points: list[tuple[int, int | None]] = []
+    for idx, op in enumerate(ops):
+        points.append((idx, None))
+        if op["kind"] == "write" and op["size"] > 1:
+            for part in sorted({1, op["size"] // 2, op["size"] - 1}):
+                if 0 < part < op["size"]:
+                    points.append((idx, part))
+    if only is not None:
+        points = [tuple(only)]
+    only_live = all(op.get("path", live) == live and op["kind"] in ("open", "write", "close", "truncate") for op in ops)
+    known_failure = None
+    survivors = []
+    for crash_at, partial in points:
+        _restore(scratch, start)
+        code, _ = _fork(scratch, path, saving, crash_at, partial, False)
+        forks += 1
+        if code != 0:
+            raise RuntimeError(f"crash child exited with {code}")
+        on_disk = None
+        if os.path.exists(path):
+            with open(path, "rb") as fil:
+                on_disk = fil.read()
+        status, loaded = env.run(c13._load(path))
+        if status == "ok" and any(loaded == snap for snap in allowed):
+            survivors.append((_dir_state(scratch), loaded))
+            continue
+        op = ops[crash_at]
+        where = f"{label}crash before op {crash_at} {op}" + (f" after {partial} of {op['size']} bytes" if partial is not None else "")
+        result = "read-error" if status != "ok" else ("empty-registry" if not loaded else "other-registry")
+        opened_live = any(o["kind"] == "open" and o.get("path") == live and "w" in o.get("mode", "") for o in ops[:crash_at] + ([ops[crash_at]] if partial is not None else []))
+        strict_prefix = on_disk is not None and new_bytes.startswith(on_disk) and on_disk != new_bytes
+        if opened_live and strict_prefix and only_live:
+            # exactly the shape of the listed finding: the save touches nothing but the live file, which it truncates and rewrites in place
+            sig = f"torn-in-place-write:file-is-strict-prefix-of-new:{result}"
+        elif on_disk is None:
+            sig = f"file-missing-after-crash:{result}"
+        elif opened_live and strict_prefix:
+            sig = f"live-file-truncated-by-other-path:{result}"
+        else:
+            sig = f"file-damaged:{result}"
+        if label and not sig.startswith("torn-in-place-write:"):
+            sig = "after-earlier-crash:" + sig
+        failure = fail(
+            sig,
+            f"{where}: file on disk is {('%d bytes' % len(on_disk)) if on_disk is not None else 'missing'} "
+            f"({'strict prefix of the new text' if strict_prefix else 'not a prefix of the new text'}; save operations: "
+            f"{[(o['kind'], o.get('path', '')) for o in ops]}); load gives {status} {str(loaded)[:160]!r} [only={[crash_at, partial]}]",
+            nontrivial=True,
+        )
+        if sig in known:
+            known_failure = known_failure or failure  # a listed finding: keep enumerating behind it
+            continue
+        return failure, known_failure, forks, ops, survivors
+    return None, known_failure, forks, ops, survivors
+
+
 def run_case(case: dict) -> Outcome:
     new = case["new"]
     old = new if case.get("same") else case["old"]
     scratch = tempfile.mkdtemp(prefix="vf-c15-", dir=c13.SCRATCH_BASE)
     path = os.path.join(scratch, "persistence.json")
-    runs = 0
-    info = {"inside": 0, "ops": 0}
+    forks_total = 0
+    info = {"inside": 0, "ops": 0, "second": 0}
     known = load_known(ID)
     known_failure: Outcome | None = None
     try:
@@ -218,75 +319,49 @@ def run_case(case: dict) -> Outcome:
                 return fil.read(), env.snapshot(gateway.nodes)
 
         new_bytes, new_snap = env.run(save_real(new))
-        old_bytes, old_snap = (None, {})
+        start: dict = {}
+        old_snap: dict = {}
         if old is not None:
             old_bytes, old_snap = env.run(save_real(old))
-        _reset(scratch, path, old_bytes)
-        code, ops = _fork(scratch, path, new, -1, None, True)
-        runs += 1
-        if code != 0:
-            raise RuntimeError(f"dry run of save failed in the child (exit {code})")
+            start = {os.path.basename(path): old_bytes}
+        failure, kfail, forks, ops, survivors = _sweep(scratch, path, start, new, [old_snap, new_snap], new_bytes, known, case.get("only"))
+        forks_total += forks
         info["ops"] = len(ops)
-        if not any(op["kind"] in ("open", "write") for op in ops):
-            # the save went through an interface this harness does not intercept: say so instead of passing vacuously
-            raise RuntimeError(f"save performed no intercepted file operation (ops: {ops!r}); C15's crash model needs extending")
-        status, loaded = env.run(c13._load(path))
-        if status != "ok" or loaded != new_snap:
-            return fail("completed-save-does-not-load-as-new", f"after a complete save the file loads as {status} {loaded!r}", nontrivial=True)
-
-        points: list[tuple[int, int | None]] = []
-        for idx, op in enumerate(ops):
-            points.append((idx, None))
-            if op["kind"] == "write" and op["size"] > 1:
-                for part in sorted({1, op["size"] // 2, op["size"] - 1}):
-                    if 0 < part < op["size"]:
-                        points.append((idx, part))
-        if "only" in case:
-            points = [tuple(case["only"])]
-        for crash_at, partial in points:
-            _reset(scratch, path, old_bytes)
-            code, _ = _fork(scratch, path, new, crash_at, partial, False)
-            runs += 1
-            if code != 0:
-                raise RuntimeError(f"crash child exited with {code}")
-            on_disk = None
-            if os.path.exists(path):
-                with open(path, "rb") as fil:
-                    on_disk = fil.read()
-            status, loaded = env.run(c13._load(path))
-            inside = crash_at > 0 or partial is not None
-            if inside and old_snap != new_snap and old_snap:
-                info["inside"] += 1
-            if status == "ok" and (loaded == old_snap or loaded == new_snap):
-                continue
-            op = ops[crash_at]
-            where = f"crash before op {crash_at} {op}" + (f" after {partial} of {op['size']} bytes" if partial is not None else "")
-            result = "read-error" if status != "ok" else ("empty-registry" if not loaded else "other-registry")
-            opened_live = any(o["kind"] == "open" and o.get("path") == os.path.basename(path) and "w" in o.get("mode", "") for o in ops[:crash_at] + ([ops[crash_at]] if partial is not None else []))
-            strict_prefix = on_disk is not None and new_bytes.startswith(on_disk) and on_disk != new_bytes
-            if opened_live and strict_prefix:
-                sig = f"torn-in-place-write:file-is-strict-prefix-of-new:{result}"
-            elif on_disk is None:
-                sig = f"file-missing-after-crash:{result}"
-            else:
-                sig = f"file-damaged:{result}"
-            failure = fail(
-                sig,
-                f"{where}: file on disk is {('%d bytes' % len(on_disk)) if on_disk is not None else 'missing'} "
-                f"({'strict prefix of the new text' if strict_prefix else 'not a prefix of the new text'}); load gives {status} "
-                f"{str(loaded)[:160]!r}; old registry had {len(old_snap)} nodes, new has {len(new_snap)} [only={[crash_at, partial]}]",
-                nontrivial=True,
-            )
-            if sig in known:
-                # a listed finding: keep enumerating the remaining crash points behind it
-                known_failure = known_failure or failure
-                continue
-            failure.extra_evals = runs - 1
+        known_failure = known_failure or kfail
+        if old_snap != new_snap and old_snap:
+            info["inside"] = max(len(ops) - 1, 0)
+        if failure is not None:
+            failure.extra_evals = forks_total - 1
             return failure
+        if case.get("second") and "only" not in case:
+            # the restarted process saves again and crashes again: each state a first crash (and the load after it) left
+            # behind is the starting point of a second sweep
+            third = dict(new)
+            third["77"] = {"node_id": 77, "node_type": 17, "protocol_version": "2.2.0", "sketch_name": "second session", "sketch_version": "", "battery_level": 1,
+                           "heartbeat": 0, "sleeping": False, "children": {}}
+            seen = set()
+            for state, loaded in survivors:
+                key = tuple(sorted((n, hash(d)) for n, d in state.items()))
+                if key in seen:
+                    continue
+                seen.add(key)
+                merged = dict(loaded)
+                gateway_view = dict(merged)
+                gateway_view.update({"77": third["77"]})
+                # what the second session saves: what it loaded plus one more node
+                saving = {k: v for k, v in gateway_view.items()}
+                _restore(scratch, state)
+                third_bytes, third_snap = env.run(save_real(saving))
+                failure, kfail, forks, _ops2, _s2 = _sweep(scratch, path, state, saving, [loaded, third_snap], third_bytes, known, None, label="second save: ")
+                forks_total += forks
+                info["second"] += 1
+                if failure is not None:
+                    failure.extra_evals = forks_total - 1
+                    return failure
     finally:
         shutil.rmtree(scratch, ignore_errors=True)
     if known_failure is not None:
-        known_failure.extra_evals = runs - 1
+        known_failure.extra_evals = forks_total - 1
         return known_failure
-    classes = (f"ops={info['ops']}", "old=none" if old is None else ("old=empty" if not old else "old=nonempty"), "same" if case.get("same") else "different")
-    return Outcome(ok=True, nontrivial=info["inside"] > 0, classes=classes, extra_evals=runs - 1)
+    classes = (f"ops={info['ops']}", "old=none" if old is None else ("old=empty" if not old else "old=nonempty"), "same" if case.get("same") else "different") + (("two-crashes",) if info["second"] else ())
+    return Outcome(ok=True, nontrivial=info["inside"] > 0, classes=classes, extra_evals=forks_total - 1)
